@@ -159,6 +159,10 @@ func init() {
 			}
 			// chunk-size patterns within one write: large, small, medium (and permutations), for the source
 			// reader of SetReader and for a paced Create
+			// a source that returns its last bytes together with io.EOF (http bodies, section readers do)
+			for _, pat := range [][]int{{8}, {1}, {3, 5}, {2048, 1}, {2049}, {32768}, {32768, 32768, 1}, {40000, 7}} {
+				add(seq.Op{Kind: seq.SetReader, Actor: model.Auto, Key: "a", Split: pat, EOFWithData: true})
+			}
 			for _, pat := range [][]int{{5, 1, 3}, {3, 1, 5}, {1, 5, 3}, {3000, 10, 2048}, {2048, 1, 2047, 2049}, {40000, 7, 32768}, {7, 0, 7}} {
 				add(seq.Op{Kind: seq.SetReader, Actor: model.Auto, Key: "a", Split: pat})
 				add(seq.Op{Kind: seq.Create, Actor: model.Auto, Key: "a", Split: pat, Paced: true})
